@@ -70,6 +70,13 @@ def run(ctx):
                 cfg['examples'] = 'all'
             if i % 3 == 2:
                 cfg['detect_min_iri'] = True
+                # instances spread over hosts that share their first letters (and one over another scheme): the common stem of a class is then
+                # something like `http://ex`, cut back to `http://` - a value on which cutting back once and twice differ if the rule is applied to
+                # the wrong string; the stored stems are re-used by every later call
+                hosts = ['http://example.org/', 'http://exotic.org/', 'http://exotic.org/', 'http://excel.example/', 'https://example.org/']
+                ren = lambda t: ('I', hosts[int(t[1][len(EX) + 1:]) % len(hosts)] + t[1][len(EX):]) if t[0] == 'I' and t[1].startswith(EX + 'n') and t[1][len(EX) + 1:].isdigit() else t
+                g = [(ren(s_), p_, ren(o_)) for s_, p_, o_ in g]
+                cfg['all_compliant'] = True
             graphs.append((g, cfg))
         # one more graph: disjunctions enabled on a graph that really produces them (several values per instance, typed and untyped), and
         # a class and a property whose IRIs are not ASCII (file and string channels must agree byte for byte)
